@@ -321,6 +321,15 @@ func collectRanges(t types.Type, L []string, out *[]string) {
 		return
 	}
 	switch u := t.Underlying().(type) {
+	case *types.Interface:
+		if len(L) == 2 {
+			// the nil interface has no payload
+			*out = append(*out, "(=> (= "+L[0]+" 0) (= "+L[1]+" 0))")
+		}
+	case *types.Signature:
+		if len(L) == 2 {
+			*out = append(*out, "(=> (= "+L[0]+" 0) (= "+L[1]+" 0))")
+		}
 	case *types.Struct:
 		if len(leavesOf(t)) == 0 {
 			return
